@@ -40,6 +40,7 @@
 import ICal.Lemmas.Parse
 import ICal.Lemmas.Line
 import ICal.Props.C06
+import ICal.Props.C09
 namespace ICal.C01
 
 /-- Key lemma: from any running state, the lines of a well-formed tree push the tree — with the
@@ -227,6 +228,50 @@ theorem parse_toIcal (tzok : Comp → Bool) (dec : Dec) (t : Comp) (hwf : WF dec
       obtain ⟨it, hit, rfl⟩ := List.mem_map.mp hl
       exact lnOf_real_line it (h it hit)
 
+/-! ### first parse of well-formed text in any layout (with C09) -/
+
+/-- First-parse exactness, any physical layout: take a tree of the domain and write its content
+    lines down in ANY physical form `ps` — every line cut anywhere into a first segment and
+    continuation segments, each continuation preceded by its own fold separator (CR LF or LF,
+    then SP or HT), every line ended by CR LF or by LF — not only the layout `to_ical()` chooses.
+    `from_ical` of that text returns exactly the tree the text denotes (entries in canonical
+    order) and records no error. (`p.ok` contains that the logical line has no CR, see C09.) -/
+theorem parse_any_layout (tzok : Comp → Bool) (dec : Dec) (t : Comp) (hwf : WF dec t)
+    (htz : TzOK tzok true t) (h : ∀ it ∈ items true t, ItemOK it)
+    (ps : List PhysLine) (hps : ∀ p ∈ ps, p.ok)
+    (hlog : ps.map PhysLine.logical = (items true t).map (lnOf true)) :
+    parseText tzok dec false (physText ps) = some ([sortedTree true t], []) := by
+  unfold parseText
+  rw [ICal.C09.physical_lines_invariant ps hps, hlog]
+  exact parse_ser_lines tzok dec (lnOf true) true t hwf htz (fun it hit => lineOK_itemLine it (h it hit))
+
+/-- a serialised line of the domain without CR is a well-formed line in the sense of C09 -/
+theorem lnOf_wfLine (it : Item) (h : ItemOK it) (hcr : CR ∉ lnOf true it) : WFLine (lnOf true it) := by
+  obtain ⟨h1, h2, h3, h4, h5⟩ := lnOf_real_line it h
+  exact ⟨⟨h1, h2, h3, h4⟩, h5, hcr⟩
+
+/-- The same through every insignificant rewrite (C09 `parse_invariant`): the lines may be any
+    case variant of the tree's content lines (BEGIN / END, component names, property names in any
+    letter case; parameter names are upper-cased by `parts()`), written in any physical layout
+    `ps`, and the text may then go through any sequence `rs` of text rewrites (CR LF ↦ LF, one
+    byte-order mark, trailing blank lines, further folds).  Extra hypothesis, explicit: no content
+    line holds a CR (needed by the LF rewrite and LF-only folds, see C09 `lf_needs_hypothesis`). -/
+theorem parse_any_text (tzok : Comp → Bool) (dec : Dec) (t : Comp) (hwf : WF dec t)
+    (htz : TzOK tzok true t) (h : ∀ it ∈ items true t, ItemOK it)
+    (hcr : ∀ it ∈ items true t, CR ∉ lnOf true it)
+    (ps : List PhysLine) (rs : List Rewrite) (hps : ∀ p ∈ ps, p.ok)
+    (hcv : Pointwise CaseVariant ((items true t).map (lnOf true)) (ps.map PhysLine.logical))
+    (hc : rs.countP Rewrite.isBOM ≤ 1) :
+    parseText tzok dec false (applyAll rs (physText ps)) = some ([sortedTree true t], []) := by
+  have hls : ∀ l ∈ (items true t).map (lnOf true), WFLine l := by
+    intro l hl
+    obtain ⟨it, hit, rfl⟩ := List.mem_map.mp hl
+    exact lnOf_wfLine it (h it hit) (hcr it hit)
+  rw [ICal.C09.parse_invariant tzok dec false _ ps rs hls hps hcv hc]
+  unfold parseText
+  rw [linesFromIcal_body _ hls]
+  exact parse_ser_lines tzok dec (lnOf true) true t hwf htz (fun it hit => lineOK_itemLine it (h it hit))
+
 /-! ### non-vacuity: a calendar with VERSION, an event with SUMMARY, two ATTENDEEs (one with
     parameters), a nested alarm; the identity decoder. -/
 
@@ -260,6 +305,39 @@ example : parseLines (fun _ => true) decId false ((items true sample).map (lnOf 
 example : (parseLines (fun _ => true) decId false ((items true sample).map (lnOf true))).map
       (fun r => (r.1.map (items false), r.2)) = some ([items false (sortedTree true sample)], []) := by
   decide +kernel
+/-- no content line of the sample holds a CR -/
+example : ∀ it ∈ items true sample, CR ∉ lnOf true it := by decide +kernel
+/-- `parse_any_layout` applies to a layout `to_ical()` never produces: every line ended by a bare
+    LF, and the first line folded with LF HT after `BEG` -/
+example : parseText (fun _ => true) decId false
+    (physText (⟨"BEG".toList, [([LF, HT], "IN:VCALENDAR".toList)], [LF]⟩ ::
+      ((items true sample).drop 1).map (fun it => ⟨lnOf true it, [], [LF]⟩))) =
+    some ([sortedTree true sample], []) := by
+  have hok : ∀ it ∈ items true sample, ItemOK it := by decide +kernel
+  have hcr : ∀ it ∈ items true sample, CR ∉ lnOf true it := by decide +kernel
+  apply parse_any_layout (fun _ => true) decId sample (by simp only [sample, WF, WFs, and_true]; decide)
+    (TzOK_true true sample) hok
+  · intro p hp
+    rcases List.mem_cons.mp hp with rfl | hp
+    · refine ⟨by decide, ?_, Or.inr rfl, ?_⟩
+      · intro q hq
+        simp only [List.mem_cons, List.not_mem_nil, or_false] at hq
+        subst hq
+        exact foldSep_lf_ht
+      · exact lnOf_wfLine (beginItem "VCALENDAR".toList) (hok _ (by decide +kernel)) (hcr _ (by decide +kernel))
+    · obtain ⟨it, hit, rfl⟩ := List.mem_map.mp hp
+      have hit' : it ∈ items true sample := List.mem_of_mem_drop hit
+      refine ⟨(lnOf_real_line it (hok it hit')).1, by simp, Or.inr rfl, ?_⟩
+      simpa [PhysLine.logical] using lnOf_wfLine it (hok it hit') (hcr it hit')
+  · have e : items true sample = beginItem "VCALENDAR".toList :: (items true sample).drop 1 := by
+      decide +kernel
+    conv => rhs; rw [e]
+    simp only [List.map_cons, List.map_map]
+    congr 1
+    apply List.map_congr_left
+    intro it _
+    simp [PhysLine.logical]
+
 /-- `x\, y` in SUMMARY (TEXT) is inside the domain; in a URL it is not (D02) -/
 example : ItemOK ⟨"SUMMARY".toList, "x\\, y".toList, []⟩ ∧ ¬ ItemOK ⟨"URL".toList, "x\\, y".toList, []⟩ := by
   decide +kernel
